@@ -92,7 +92,7 @@ def enc(serial, pos):
 
 
 def execute(sc, ctx):
-    m = Model()
+    m = Model(seed=20260927)
     spec = sc["world"]
     env = make_world(m, spec)
     W, H, D = spec["w"], spec["h"], spec["d"]
